@@ -19,7 +19,7 @@ META = dict(
 
 class C07(AttBase):
     tag = "C07"
-    quick_pool = ["v_wq0", "v_wq10", "v_wq32", "v_wq142", "v_wqnone", "v_handlers", "v_enc_server_r", "v_enc_server_none"]
+    quick_pool = ["v_wq0", "v_wq10", "v_wq32", "v_wq142", "v_wqnone", "v_handlers", "v_enc_server_none", "v_long"]
     quick_random = 2
     thorough_random = 40
     trusted_base = ["models coq/AttDb/AttDbModel.v, coq/AttSrv/AttSrvModel.v (hand written transcription, tied by this run)",
@@ -48,6 +48,8 @@ class C07(AttBase):
                     cases.append(self.case("queue", cfg, ops))
             for ops in VC.gen_prepare_handler(rng, vi):
                 cases.append(self.case("probe", cfg, ops))
+            for ops in VC.gen_wide_offsets(rng, vi):
+                cases.append(self.case("wide", cfg, ops))
             for k in range(per):
                 cases.append(self.case("hist", cfg, VC.gen_value_history(rng, vi, rng.choice([10, 25, 60]), sec_rate=0.08)))
         return cases
